@@ -1332,10 +1332,6 @@ Section MddStruct.
     wf (fold_left (fun a x => upd_node a (key a x) (g a x)) l m).
   Proof. intros Hg. apply fold_left_inv. intros a x _ Ha. apply wf_upd_node; auto. Qed.
 
-  Lemma get_edge_app1 (m : mddT) (es : list edge) k eid :
-    eid < length es -> nth eid (es ++ k) default_edge = nth eid es default_edge.
-  Proof. intros; apply app_nth1; auto. Qed.
-
   Lemma wf_append_edge m e :
     wf m -> e_from e < length (m_nodes m) -> e_to e < length (m_nodes m) -> wf (append_edge inp m e).
   Proof.
@@ -2221,11 +2217,11 @@ Section MddStruct.
     wf m -> ext m a -> inb_frame mid m a ->
     Forall (fun did => did <> mid /\ did < length (m_nodes m)) L ->
     let a' := fold_left (drop_step merged mid) L a in
-    ext m a' /\
+    ext m a' /\ inb_frame mid m a' /\
     m_log a' = rev (flat_map (fun did => map (relax_event m merged did) (n_inb (gnode m did))) L) ++ m_log a.
   Proof.
     induction L as [|did L IH]; intros a W E F HL; simpl.
-    - split; [exact E|reflexivity].
+    - split; [exact E|split; [exact F|reflexivity]].
     - inversion HL as [|? ? [Hne Hlt] HL']; subst.
       set (a1 := upd_node a did (fun n => set_flags n (fl_set_deleted (n_flags n) true))).
       assert (E1 : ext m a1) by (apply ext_r_upd_node; [exact E|reflexivity]).
@@ -2237,8 +2233,8 @@ Section MddStruct.
       destruct (redirect_fold_log m merged mid (n_inb (gnode m did)) a1 W E1 (wf_inb_range m did W Hlt))
         as [E2 [F2 L2]].
       rewrite Hds.
-      destruct (IH _ W E2 (inb_frame_trans _ _ _ _ F1 F2) HL') as [E3 L3].
-      split; [exact E3|].
+      destruct (IH _ W E2 (inb_frame_trans _ _ _ _ F1 F2) HL') as [E3 [F3 L3]].
+      split; [exact E3|]. split; [exact F3|].
       rewrite L3, L2. rewrite rev_app_distr, <- app_assoc. f_equal. f_equal.
       f_equal. apply map_ext_in. intros eid Hin.
       rewrite (wf_inb_to _ W did eid Hlt Hin). reflexivity.
@@ -2287,7 +2283,7 @@ Section MddStruct.
       assert (F2 : inb_frame rid m m2).
       { intros id _. unfold m2. rewrite (get_node_upd_node_proj (@n_inb St)) by reflexivity.
         rewrite G1. reflexivity. }
-      destruct (drop_fold_log m merged rid mrg m2 W E2 F2) as [_ L3].
+      destruct (drop_fold_log m merged rid mrg m2 W E2 F2) as [_ [_ L3]].
       { apply Forall_forall. intros did Hd. split.
         - intros ->. apply (Hdisj _ Hin). exact Hd.
         - eapply ids_ok_In; eauto. }
@@ -2311,7 +2307,7 @@ Section MddStruct.
           assert (Hk : exists k, id - length (m_nodes m1) = S k).
           { exists (id - length (m_nodes m1) - 1). unfold mid in Hid. lia. }
           destruct Hk as [k ->]. simpl. destruct k; reflexivity. }
-      destruct (drop_fold_log m merged mid mrg m2 W E2 F2) as [_ L3].
+      destruct (drop_fold_log m merged mid mrg m2 W E2 F2) as [_ [_ L3]].
       { apply Forall_forall. intros did Hd. pose proof (ids_ok_In _ _ _ Hmrg Hd) as Hlt.
         split; [unfold mid; rewrite N1; lia|exact Hlt]. }
       rewrite L3. change (m_log m2) with (m_log m1). rewrite L1. reflexivity.
@@ -2947,4 +2943,169 @@ Section MddStruct.
     intros ev. apply kind_in_incl. unfold neutral_kinds. intros x Hx; simpl in *; intuition.
   Qed.
 
+  (* relaxed compilations, clean flavours: the bound holds for every layer but the root layer and the
+     first layer below it.  [skip] counts the segments (delimited by next_variable calls) that are
+     still exempted, the current one included. *)
+  Fixpoint width_ok_after (skip W cnt : nat) (evs : list (event St)) : Prop :=
+    match evs with
+    | [] => 0 < skip \/ cnt <= W
+    | EvNextVar _ _ _ :: r => (0 < skip \/ cnt <= W) /\ width_ok_after (pred skip) W 0 r
+    | EvDomain _ _ :: r => width_ok_after skip W (S cnt) r
+    | _ :: r => width_ok_after skip W cnt r
+    end.
+
+  Lemma width_ok_after_zero W evs : forall c, width_ok W c evs -> width_ok_after 0 W c evs.
+  Proof.
+    induction evs as [|x evs IH]; simpl; intros c H; [right; exact H|].
+    destruct x; simpl in *; auto. destruct H; split; auto.
+  Qed.
+
+  Lemma width_ok_after_app s W k : Forall (fun ev => kind_of ev <> KNextVar) k ->
+    forall c r, width_ok_after s W c (k ++ r) <-> width_ok_after s W (c + domain_count k) r.
+  Proof.
+    induction 1 as [|x k Hx _ IH]; intros c r; simpl.
+    - rewrite Nat.add_0_r. tauto.
+    - destruct x; simpl in *; try (apply IH); try congruence.
+      rewrite IH. replace (S c + domain_count k) with (c + S (domain_count k)) by lia. tauto.
+  Qed.
+
+  Theorem layer_loop_width_relaxed_clean :
+    ci_type inp = Relaxed -> 1 <= ci_width inp -> is_pooled flv = false ->
+    forall fuel m m' e,
+    layer_loop st_eqb inp fuel m = (m', e) ->
+    exists k, m_log m' = k ++ m_log m /\
+      forall skip c, pred skip = 2 - length (m_layers m) -> (skip = 0 -> c <= ci_width inp) ->
+                     width_ok_after skip (ci_width inp) c (rev k).
+  Proof.
+    intros Ht Hw Hp. induction fuel as [|fuel IH]; intros m m' e H.
+    - simpl in H. inversion H; subst. exists []. split; [reflexivity|]. simpl.
+      intros skip c _ Hc. destruct skip; [right; auto|left; lia].
+    - assert (Hfirst : forall skip c, (skip = 0 -> c <= ci_width inp) -> 0 < skip \/ c <= ci_width inp).
+      { intros skip c Hc. destruct skip; [right; auto|left; lia]. }
+      rewrite layer_loop_iteration in H. cbv zeta in H.
+      set (sts := map (fun id => state_of m id) (m_next m)) in *.
+      destruct (next_variable pb (m_curr_depth m) sts) as [var|].
+      2:{ inversion H; subst. exists [EvNextVar (m_curr_depth m) sts None].
+          split; [reflexivity|]. simpl. intros skip c _ Hc. split; [auto|].
+          destruct (pred skip); [right; lia|left; lia]. }
+      set (m0 := add_log m (EvNextVar (m_curr_depth m) sts (Some var))) in *.
+      set (m1 := with_polls m0 (S (m_polls m0))) in *.
+      destruct (_ && _).
+      { inversion H; subst. exists [EvNextVar (m_curr_depth m) sts (Some var)].
+        split; [reflexivity|]. simpl. intros skip c _ Hc. split; [auto|].
+        destruct (pred skip); [right; lia|left; lia]. }
+      destruct (loop_move m1 var) as [m2 ol] eqn:Hmv.
+      pose proof (loop_move_log_depth _ _ _ _ Hmv) as [[k2 [E2 F2]] _].
+      change (m_log m1) with (EvNextVar (m_curr_depth m) sts (Some var) :: m_log m) in E2.
+      assert (N2 : ~ In KNextVar stage_kinds) by (simpl; intuition discriminate).
+      assert (D2 : ~ In KDomain stage_kinds) by (simpl; intuition discriminate).
+      destruct ol as [l|].
+      2:{ inversion H; subst. exists (k2 ++ [EvNextVar (m_curr_depth m) sts (Some var)]).
+          split; [rewrite E2, <- app_assoc; reflexivity|].
+          intros skip c _ Hc. rewrite rev_app_distr. simpl. split; [auto|].
+          rewrite <- (app_nil_r (rev k2)).
+          rewrite (width_ok_after_app _ _ _ (not_nextvar_of_kinds _ _ N2 F2)).
+          rewrite domain_count_rev, (domain_count_kinds _ _ D2 F2). simpl.
+          destruct (pred skip); [right; lia|left; lia]. }
+      assert (Hlay : length (m_layers m2) = S (length (m_layers m))).
+      { unfold loop_move in Hmv. rewrite Hp in Hmv. apply move_clean_layers in Hmv.
+        destruct Hmv as [ids ->]. rewrite app_length. simpl. change (m_layers m1) with (m_layers m). lia. }
+      destruct (fold_expand_domain_count var l m2) as [k3 [E3 [F3 C3]]].
+      assert (N3 : ~ In KNextVar expand_kinds) by (simpl; intuition discriminate).
+      apply IH in H. destruct H as [k [E Hk]]. simpl m_log in E.
+      simpl m_layers in Hk. rewrite (ext_layers _ _ (ext_fold_expand var l m2)), Hlay in Hk.
+      exists (k ++ k3 ++ k2 ++ [EvNextVar (m_curr_depth m) sts (Some var)]). split.
+      + rewrite E, E3, E2, <- !app_assoc. reflexivity.
+      + intros skip c Hs Hc. rewrite !rev_app_distr. simpl rev at 1. rewrite <- !app_assoc. simpl.
+        split; [auto|].
+        rewrite (width_ok_after_app _ _ _ (not_nextvar_of_kinds _ _ N2 F2)).
+        rewrite domain_count_rev, (domain_count_kinds _ _ D2 F2).
+        rewrite (width_ok_after_app _ _ _ (not_nextvar_of_kinds _ _ N3 F3)).
+        rewrite domain_count_rev. apply Hk; [lia|].
+        intros Hz. simpl.
+        (* the layer just expanded was squashed: at least two layers were recorded *)
+        assert (Hw1 : enforces_width m1).
+        { right. repeat split; auto. change (m_layers m1) with (m_layers m). lia. }
+        destruct (loop_move_width _ _ _ _ Hmv Hw1) as [Hlen _]. lia.
+  Qed.
+
+  Theorem compile_width_relaxed_clean tb tb2 c ds polls m o :
+    ci_type inp = Relaxed -> 1 <= ci_width inp -> is_pooled flv = false ->
+    compile st_eqb inp tb tb2 c ds polls = (m, o) ->
+    width_ok_after 3 (ci_width inp) 0 (rev (m_log m)).
+  Proof.
+    intros Ht Hw Hp. unfold compile. destruct (layer_loop _ _ _ _) as [m1 e] eqn:Hl.
+    apply (layer_loop_width_relaxed_clean Ht Hw Hp) in Hl. destruct Hl as [k [E Hk]].
+    rewrite initialize_log, app_nil_r in E.
+    assert (G : width_ok_after 3 (ci_width inp) 0 (rev (m_log m1))).
+    { rewrite E. apply Hk; [reflexivity|discriminate]. }
+    destruct e; intros H; inversion H; subst; auto.
+    destruct (logext_finalize tb tb2 m1) as [kf [Ef Ff]].
+    rewrite Ef, rev_app_distr.
+    assert (Happ : forall W a b s c0, Forall (fun ev : event St => kind_of ev <> KNextVar /\ kind_of ev <> KDomain) b ->
+              width_ok_after s W c0 a -> width_ok_after s W c0 (a ++ b)).
+    { intros W a b. induction a as [|x a IH]; simpl; intros s c0 Fb Ha.
+      - induction Fb as [|y b [Hy1 Hy2] _ IHb]; simpl; auto. destruct y; simpl in *; auto; congruence.
+      - destruct x; simpl in *; auto. destruct Ha; split; auto. }
+    apply Happ; [|exact G]. apply Forall_rev. eapply Forall_impl; [|exact Ff].
+    intros ev [Hk1|[]]. rewrite <- Hk1. split; discriminate.
+  Qed.
+
+  (* ================================================================ what wf buys: the accessors never
+     fall back on their default on any identifier stored in a well-formed diagram *)
+  Lemma get_node_nth_error (m : mddT) id :
+    id < length (m_nodes m) -> nth_error (m_nodes m) id = Some (gnode m id).
+  Proof. intros H. unfold get_node. apply nth_error_nth'. exact H. Qed.
+  Lemma get_edge_nth_error (m : mddT) eid :
+    eid < length (m_edges m) -> nth_error (m_edges m) eid = Some (get_edge m eid).
+  Proof. intros H. unfold get_edge. apply nth_error_nth'. exact H. Qed.
+
+  Corollary wf_next_defined m id : wf m -> In id (m_next m) -> nth_error (m_nodes m) id = Some (gnode m id).
+  Proof. intros W H. apply get_node_nth_error. eapply ids_ok_In; [apply (wf_next _ W)|exact H]. Qed.
+  Corollary wf_layer_defined m ids id :
+    wf m -> In ids (m_layers m) -> In id ids -> nth_error (m_nodes m) id = Some (gnode m id).
+  Proof.
+    intros W H1 H2. apply get_node_nth_error. pose proof (wf_layers _ W) as F.
+    rewrite Forall_forall in F. eapply ids_ok_In; [apply (F ids H1)|exact H2].
+  Qed.
+  Corollary wf_inbound_defined m id eid :
+    wf m -> id < length (m_nodes m) -> In eid (n_inb (gnode m id)) ->
+    nth_error (m_edges m) eid = Some (get_edge m eid) /\ e_to (get_edge m eid) = id /\
+    e_from (get_edge m eid) < length (m_nodes m).
+  Proof.
+    intros W Hid Hin.
+    assert (Hlt : eid < length (m_edges m)) by (eapply ids_ok_In; [apply (wf_inb_range m id W Hid)|exact Hin]).
+    split; [apply get_edge_nth_error; exact Hlt|]. split; [apply (wf_inb_to _ W); auto|].
+    apply wf_edge_from; auto.
+  Qed.
+
 End MddStruct.
+
+(* ------------------------------------------------------------------ axiom audit *)
+Print Assumptions compile_layers_nonempty.
+Print Assumptions as_graphviz_total.
+Print Assumptions squash_width_restricted.
+Print Assumptions squash_width_relaxed.
+Print Assumptions squash_exact.
+Print Assumptions move_clean_width_restricted.
+Print Assumptions move_clean_width_relaxed.
+Print Assumptions move_pooled_width_restricted.
+Print Assumptions move_pooled_width_relaxed.
+Print Assumptions layer_loop_width.
+Print Assumptions compile_width_restricted.
+Print Assumptions compile_width_relaxed_clean.
+Print Assumptions branch_on_log.
+Print Assumptions branch_on_edge.
+Print Assumptions expand_node_log.
+Print Assumptions relax_layer_log_weak.
+Print Assumptions relax_layer_log.
+Print Assumptions relax_layer_protocol.
+Print Assumptions layer_loop_nextvar.
+Print Assumptions layer_loop_first_call.
+Print Assumptions compile_nextvar.
+Print Assumptions layer_loop_protocol.
+Print Assumptions compile_protocol.
+Print Assumptions wf_initialize.
+Print Assumptions wf_layer_loop.
+Print Assumptions wf_finalize.
+Print Assumptions wf_compile.
